@@ -173,6 +173,42 @@ impl Check for C18 {
         .with_lookaheads(60)
         .with_modes(4);
         let mut modes = gen::gen_modes(d, &p);
+        if d.chance(p.large_per_256) {
+            let mi = d.below(modes.len());
+            modes[mi] = gen::gen_large_mode(d, &p, gen::MODE_NAMES[mi]);
+        }
+        if d.chance(10) {
+            // a class whose source text is long (labels beyond 64 / 256 bytes)
+            let wide = gen::wide_alphabet();
+            let n = *d.pick(&[30usize, 64, 70, 130, 260]);
+            let items = (0..n)
+                .map(|i| rx::ClassItem::Lit(wide[(i * 3 + d.below(2)) % wide.len()], rx::LitForm::Verbatim))
+                .collect();
+            let cls = Rx::Class(rx::Class::Bracket(rx::Bracket {
+                negated: d.chance(60),
+                set: rx::ClassSet::Items(items),
+            }));
+            let mi = d.below(modes.len());
+            let mut tt = 50;
+            while modes[mi].pats.iter().any(|q| q.tt == tt) {
+                tt += 1;
+            }
+            modes[mi].pats.push(PatSpec { rx: cls.clone(), tt, la: None });
+            if d.bool() {
+                // a second long class with a common prefix (identifier start / continue style)
+                if let Rx::Class(rx::Class::Bracket(b)) = &cls {
+                    let mut b2 = b.clone();
+                    if let rx::ClassSet::Items(v) = &mut b2.set {
+                        v.push(rx::ClassItem::Range('0', '9'));
+                    }
+                    modes[mi].pats.push(PatSpec {
+                        rx: Rx::Concat(vec![cls.clone(), Rx::Repeat(Box::new(Rx::Class(rx::Class::Bracket(b2))), 0, None)]),
+                        tt: tt + 1000,
+                        la: None,
+                    });
+                }
+            }
+        }
         if d.chance(150) {
             let mi = d.below(modes.len());
             let src = *d.pick(ESCAPE_PATTERNS);
